@@ -161,14 +161,20 @@ def candidates (pos : Bool) (nodeSep : Rat) (rest : List Level) (ts : List Level
 def rootPosOf (pos : Bool) (cands : List Rat) : Rat :=
   if pos then cands.foldl rmax dblMin else cands.foldl rmin dblMax
 
-/-- `else { … }`: place on the positive / negative side, update that side's bounds, alternate -/
-def placeSide (cfg : Cfg) (st : St) (t : Lay) : St :=
+/-- the subtree as the side branch finally positions it: flipped if it goes to the negative side, then
+    translated by `(rootPos, baseTrans.y)` resp. `(baseTrans.x, rootPos)` -/
+def sideMoved (cfg : Cfg) (st : St) (t : Lay) : Lay :=
   let pos := st.positiveNext
   let t1 := if pos then t else t.flip cfg.dir
   let rootPos := rootPosOf pos (candidates pos cfg.nodeSep st.rest t1.levels)
   let bt := baseTrans cfg.dir cfg.rankSep
   let trans : Pt := if cfg.dir.isVertical then ⟨rootPos, bt.y⟩ else ⟨bt.x, rootPos⟩
-  let t2 := t1.translate cfg.dir trans
+  t1.translate cfg.dir trans
+
+/-- `else { … }`: place on the positive / negative side, update that side's bounds, alternate -/
+def placeSide (cfg : Cfg) (st : St) (t : Lay) : St :=
+  let pos := st.positiveNext
+  let t2 := sideMoved cfg st t
   let rest' := overlay (if pos then fPos else fNeg) t2.levels st.rest
   let extreme :=
     if pos then (st.root :: rest').foldl (fun e l => rmax e l.hi) dblMin
@@ -217,7 +223,19 @@ def Key.depth (k : Key) : Nat := k.counts.length
 def Key.breadth (k : Key) : Nat := k.counts.foldl max 0
 def Key.isLeaf (k : Key) : Bool := k.counts.length ≤ 1
 
-def sortStr (l : List String) : List String := l.mergeSort (fun a b => !decide (b < a))
+/-- insertion sort with a strict "less than" (`std::sort` with that comparator: for a strict weak order the
+    sorted sequence is unique up to the order of equivalent elements; the two uses below sort plain strings,
+    where equivalent = equal, and pairwise different class strings under the total order `classLt`).
+    Structural recursion, so closed instances of the model reduce in the kernel. -/
+def insertBy {α : Type} (lt : α → α → Bool) (a : α) : List α → List α
+  | [] => [a]
+  | b :: bs => if lt a b then a :: b :: bs else b :: insertBy lt a bs
+
+def isort {α : Type} (lt : α → α → Bool) : List α → List α
+  | [] => []
+  | a :: l => insertBy lt a (isort lt l)
+
+def sortStr (l : List String) : List String := isort (fun a b => decide (a < b)) l
 
 /-- `Tree::computeIsomString`: level strings from the deepest non-leaf rank up to the root, joined by ':';
     a level string is the sorted tuple strings of its non-leaves joined by ';' -/
@@ -231,13 +249,18 @@ def tupleStr (ks : List Key) : String :=
   let b := (ks.filter (fun k => !k.isLeaf)).length
   ",".intercalate (List.replicate a "0" ++ List.replicate b "1")
 
+/-- the distinct strings of a list, first occurrences in order (the keys of `classes`) -/
+def dedup : List String → List String
+  | [] => []
+  | a :: l => a :: (dedup l).filter (fun b => b != a)
+
 /-- indices of the c-trees in class `s`, in c-tree order (`classes[s]`) -/
 def classIdx (isoms : List String) (s : String) : List Nat :=
   (List.range isoms.length).filter (fun i => isoms[i]? == some s)
 
 /-- the classes of odd order -/
 def oddClasses (isoms : List String) : List String :=
-  isoms.eraseDups.filter (fun s => (classIdx isoms s).length % 2 == 1)
+  (dedup isoms).filter (fun s => (classIdx isoms s).length % 2 == 1)
 
 /-- `m_isSymmetric`: no odd class → true; several → false; exactly one → its first member's flag -/
 def symOf (ks : List Key) : Bool :=
@@ -282,7 +305,7 @@ def isomOrder : Order := fun convex ks =>
     match ks.find? (fun k => k.isom == s) with
     | some k => (k.breadth, k.depth)
     | none => (0, 0)
-  let sorted := isoms.eraseDups.mergeSort (fun a b => !classLt convex rep b a)
+  let sorted := isort (classLt convex rep) (dedup isoms)
   match oddClasses isoms with
   | [o] => ((o :: sorted.erase o).flatMap (classIdx isoms), true)
   | _ => (sorted.flatMap (classIdx isoms), false)
